@@ -74,6 +74,15 @@ CHECKS = {
             "from another field, object or call site, no unknown state); binary operations must yield exactly the results of the operand combinations.",
             "Trusted base: harness/valcheck.py; every CFG path is feasible because each branch has its own opaque parameter; lists are excluded.",
             "DESIGN.md 3/C09"),
+    "C12": ("metamorphic testing: Hypothesis-generated base projects x sequences of meaning-preserving edits; call sites, bindings and taint flows compared after mapping positions back",
+            "Generated Python projects (call chains, class + method, parameter sources, sink calls, unique identifiers) are edited by 1-3 of: blank / "
+            "comment lines, consistent renaming of a local, parameter, function, class or method, no-op insertion, swapping adjacent top-level "
+            "definitions, moving a function to a new file and importing it. Both versions run through the whole pipeline; the call sites of all "
+            "stored call paths, the P1 binding of every identifier occurrence and the (source, sink) flows must be identical after the line / "
+            "unit / name mapping of the edit is applied.",
+            "Python frontend only; bindings of the moved function's own name are excluded for the move edit; observation helpers are shared "
+            "with C05 (harness/c05_lian.py).",
+            "DESIGN.md 3/C12"),
 }
 
 NOT_YET = {}
